@@ -325,6 +325,18 @@ func c16Run(t *testing.T, seed uint64, tier string) *RunResult {
 			}
 		}
 	}
+	if sc == "c" && plan.Cfg.hasModule("lock") && tw.Str["oauthacct"] == "" && r.Chance(1, 3) {
+		// the known account has a history: it was locked out by failures and
+		// the lock has run out since, as has the counting window
+		for i := 0; i < plan.Cfg.LockAfter+r.Intn(2); i++ {
+			plan.Steps = append(plan.Steps, Step{Kind: "login", B: tw.B, A: a, Sec: &SecretRef{Kind: "literal", Lit: "N0pe-nope!"}})
+		}
+		wait := plan.Cfg.LockDuration
+		if plan.Cfg.LockWindow > wait {
+			wait = plan.Cfg.LockWindow
+		}
+		tw.Gap = wait + r.Dur(time.Second, time.Hour)
+	}
 	plan.Steps = append(plan.Steps, tw)
 	return c16Exec(t, plan, false)
 }
